@@ -5,6 +5,7 @@ from .. import bits as B_
 from ..astutil import aug_form, dotted, effective, method_call
 from ..cfg import cfg_of, fact_key, norm, walk_own
 from ..consteval import Scope, fold_in
+from ..flow import logging_purity_rules
 from ..mutate import B, M
 
 PROP = 'C18'
@@ -234,6 +235,10 @@ def check(ctx):
         ctx.inst('R6', rn, 'downlink-split', okd, 'downlink: header = byte 0, payload = remaining bytes of the CPX payload')
         pq = [c for c in walk_own(rn.node) if method_call(c, 'put')]
         ctx.inst('R6', rn, 'downlink-queue', len(pq) == 1 and [norm(a) for a in pq[0].args] == ['pk'] and norm(pq[0].func.value) == 'self.in_queue', 'each tunnelled packet is queued once')
+
+    # observers stay observers: a debug line in the receive path must not call something that changes the router (transport() marks
+    # the router as disconnected, the routing thread then stops queueing)
+    logging_purity_rules(ctx, 'R5', [CPX, TR, TCP, SER])
 
 
 VARIANTS = [
